@@ -2236,7 +2236,24 @@ fn savefile_derive_crate_withschema(input: DeriveInput) -> TokenStream {
             }
 
             let discriminant_size = enum_size.discriminant_size;
-            let has_explicit_repr = enum_size.repr_c;
+            // Layout compatibility may only be claimed if the discriminant values recorded in the schema
+            // (the variant indices) are the values actually stored in memory.
+            let has_explicit_repr = enum_size.repr_c
+                && enum1
+                    .variants
+                    .iter()
+                    .enumerate()
+                    .all(|(variant_index, variant)| match &variant.discriminant {
+                        None => true,
+                        Some((
+                            _,
+                            syn::Expr::Lit(syn::ExprLit {
+                                lit: syn::Lit::Int(lit),
+                                ..
+                            }),
+                        )) => lit.base10_parse::<usize>().ok() == Some(variant_index),
+                        Some(_) => false,
+                    });
 
             quote! {
                 #field_offset_impl
